@@ -2,6 +2,7 @@ package props
 
 import (
 	"fmt"
+	"go/types"
 	"strings"
 
 	"bifrostverify/an"
@@ -43,6 +44,10 @@ func declineGate(c *an.Check, construct string, fn *ssa.Function, mark func(*an.
 }
 
 func c35(c *an.Check) {
+	// the bus merges equivalent lookups: LookupRpcService directives differing in service or server id stay apart, so the
+	// filters below are evaluated for every distinct request
+	equivCheck(c, func(f *ssa.Function) bool { return strings.Contains(an.FuncName(f), "rpc.lookupRpcService") })
+	accessClientFilter(c)
 	p := c.P
 	// ---- RpcServiceController
 	rs := p.Func("rpc", "RpcServiceController", "HandleDirective")
@@ -347,4 +352,51 @@ func init() {
 		Explain:     "Decides on SSA with sticky marks (flag/loop idioms are followed, not pattern-matched): RpcServiceController returns a resolver only on paths where the requested service id passed HasPrefix with a configured prefix, or serviceIdRe.MatchString, or slices.Contains on the configured list — or all three filters are unset — AND the server filter is unset or serverIdRe.MatchString(requested server id) was true; InvokerController only when no prefixes are configured or CheckStripPrefix(requested id, configured prefixes) matched; HTTPHandlerController only when the requested path passed a configured prefix / regexp or none is configured, and the prefix handed to http.StripPrefix is stored only under the HasPrefix(path, thatPrefix) success edge; MatchServeMuxPattern uses the requested method with a constant default. Converse (\"exactly when\"): a lookup is declined only on paths where some positive requirement is not known to hold or a rejecting filter result is known; (PROVENANCE) first match wins: once the matched prefix is recorded the scan over configured prefixes is left.",
 		NotCov:      "the 'exactly when' direction (no spurious rejection), regexp semantics, starpc prefix invoker internals.",
 		Assumptions: commonAssumptions})
+}
+
+// accessClientFilter: the proxying registration (rpc/access ClientController) answers a lookup only when its service
+// pattern is unset, the requested SERVICE id is empty or matches it, and likewise for the server pattern and the
+// requested SERVER id — each pattern is applied to its own request field.
+func accessClientFilter(c *an.Check) {
+	p := c.P
+	hd := p.Func("rpc/access", "ClientController", "HandleDirective")
+	svcF, srvF := fv(c, "rpc/access", "ClientController", "serviceIDRe"), fv(c, "rpc/access", "ClientController", "serverIDRe")
+	if hd == nil || svcF == nil || srvF == nil {
+		c.Undecided("GATE", "rpc/access.ClientController.HandleDirective", nil, "unresolved anchor")
+		return
+	}
+	isReq := func(s *an.State, v ssa.Value, getter string) bool {
+		call, ok := s.Canon(v).(*ssa.Call)
+		return ok && call.Call.IsInvoke() && call.Call.Method.Name() == getter
+	}
+	pass := func(f *types.Var, getter, what string) an.Req {
+		return an.AnyOf(what,
+			an.Req{Name: "pattern unset", Holds: func(s *an.State, at ssa.Instruction) bool {
+				for _, b := range hd.Blocks {
+					for _, ins := range b.Instrs {
+						if u, ok := ins.(*ssa.UnOp); ok && an.IsFieldLoad(u, f) && s.IsNil(u) {
+							return true
+						}
+					}
+				}
+				return false
+			}},
+			an.Req{Name: "requested id empty", Holds: func(s *an.State, at ssa.Instruction) bool {
+				return s.AnyFact(func(s *an.State, x, y ssa.Value, r an.Rel) bool {
+					return r == an.EQ && isReq(s, x, getter) && an.IsStrConst(an.ConvOf(y), "")
+				})
+			}},
+			an.Req{Name: "pattern matches the requested id", Holds: func(s *an.State, at ssa.Instruction) bool {
+				for _, call := range an.Calls(hd, an.X("regexp", "Regexp", "MatchString")) {
+					if s.IsTrue(call) && an.IsFieldLoad(s.Canon(call.Call.Args[0]), f) && isReq(s, call.Call.Args[1], getter) {
+						return true
+					}
+				}
+				return false
+			}})
+	}
+	c.Gate(an.GateSpec{Construct: "rpc/access.ClientController offers a resolver", Fn: hd, Sink: nonNilResolverReturn, Reqs: []an.Req{
+		pass(svcF, "LookupRpcServiceID", "service pattern admits the requested service id"),
+		pass(srvF, "LookupRpcServerID", "server pattern admits the requested server id"),
+	}})
 }
